@@ -512,6 +512,7 @@ func (o *mxOracle) checkMediaFMP4(si int, p *m3uMedia, bodies map[string]string,
 	}
 	var all []pos
 	var segStartDTS []int64
+	var segStartIx []int // index (in p.segs) of the segment each entry of segStartDTS belongs to
 	for i, g := range p.segs {
 		if g.gap {
 			continue
@@ -533,6 +534,7 @@ func (o *mxOracle) checkMediaFMP4(si int, p *m3uMedia, bodies map[string]string,
 				all = append(all, pos{s: s, dts: d, segIx: i, first: firstOfSeg})
 				if firstOfSeg {
 					segStartDTS = append(segStartDTS, d)
+					segStartIx = append(segStartIx, i)
 				}
 				firstOfSeg = false
 				d += s.dur
@@ -617,7 +619,7 @@ func (o *mxOracle) checkMediaFMP4(si int, p *m3uMedia, bodies map[string]string,
 			// must be a parameter change at the first unit of segment i+1
 			changed := false
 			for _, q := range all {
-				if q.segIx >= 0 && q.first && q.dts == segStartDTS[i+1] {
+				if q.segIx >= 0 && q.first && q.dts == segStartDTS[i+1] && q.segIx == segStartIx[i+1] {
 					if ix, ok := byPay[q.s.pay]; ok {
 						changed = o.paramChangedAt(ti, ix)
 					}
@@ -671,13 +673,19 @@ func (o *mxOracle) checkMediaFMP4(si int, p *m3uMedia, bodies map[string]string,
 				}
 				lastStart := -1
 				for _, q := range all {
-					if q.first && q.dts == segStartDTS[len(segStartDTS)-1] {
+					if q.first && q.dts == segStartDTS[len(segStartDTS)-1] && q.segIx == segStartIx[len(segStartIx)-1] {
 						if ix, ok := byPay[q.s.pay]; ok {
 							lastStart = ix
 						}
 					}
 				}
-				if lastStart >= 0 && parAt(lastStart) == parAt(len(w)-1) {
+				changedAfter := false // a change after the last listed segment began (also one that was changed back)
+				for i := lastStart + 1; lastStart >= 0 && i < len(w); i++ {
+					if w[i].par != 0 && w[i].par != parAt(i-1) {
+						changedAfter = true
+					}
+				}
+				if lastStart >= 0 && !changedAfter {
 					// no change after the last listed segment began; was there one before (a forced cut)?
 					if got, _ := strconv.Atoi(tr[2]); got != parAt(lastStart) && o.everChanged(ti, lastStart) {
 						o.failf("C02 stream %d: the last listed segment is encoded with parameter set %d and no change is pending, but the init served carries parameter set %d", si, parAt(lastStart), got)
@@ -689,7 +697,7 @@ func (o *mxOracle) checkMediaFMP4(si int, p *m3uMedia, bodies map[string]string,
 	for i, g := range realSegs {
 		if g.pdt >= 0 && i < len(segStartDTS) {
 			for _, q := range all {
-				if q.first && q.dts == segStartDTS[i] {
+				if q.first && q.dts == segStartDTS[i] && q.segIx == segStartIx[i] {
 					if ix, ok := byPay[q.s.pay]; ok && w[ix].ntpMs != g.pdt {
 						o.failf("C03 stream %d: PROGRAM-DATE-TIME of media sequence %d is %d ms, the first unit was written with %d ms", si, realMSN[i], g.pdt, w[ix].ntpMs)
 					}
